@@ -302,12 +302,14 @@ func vJsepBehaviour(t *testing.T, tr *vkTrace, sigs *vSigEvents, bh vjBehaviour)
 		case "SetRemote":
 			ty := vSDPType(st.Type)
 			var d SessionDescription
-			if src != "peer" && src != "peerx" && src != "empty" {
+			if src != "peer" && src != "peerx" && src != "empty" && src != "current" {
 				t.Fatalf("behaviour %d: the model names a description source this driver does not know: %q", bh.ID, src)
 			}
 			switch {
 			case src == "empty":
 				d = SessionDescription{Type: ty}
+			case src == "current" && pc.RemoteDescription() != nil:
+				d = SessionDescription{SDP: pc.RemoteDescription().SDP} // the very text that is in effect
 			case src == "peerx":
 				d = vPeerOfferX(t)
 			case st.Type == "offer" || st.Type == "rollback":
